@@ -5,24 +5,24 @@ props = {json.loads(l)['id']: json.loads(l) for l in open('/verif/properties.jso
 hook_commits = subprocess.check_output(['git','-C','/repo','log','--format=%h %s']).decode().strip().split('\n')
 hook_commits = [l.split()[0] for l in hook_commits if 'verif hooks' in l][::-1]
 NOTES = {
- 'C01': ("runtime layer: 24 spawn/join programs (go!, Builder with custom stack and id, spawn_local; ret / yield / sleep / park / panic / cancel / nested / scoped), workers 1-2, run queues positioned at their 32/64-slot block boundaries, 10 ms polling variants; the whole family runs twice, on the default runtime (work_steal) and on a second build of the runtime without work_steal", "§6 C01"),
- 'C02': ("ThreadPark through Blocker (fine), coroutine::park / park_timeout sequences with unpark-after-return handshake, fresh Blocker parks with timeout / cancel / ignore_cancel, thread and coroutine unparkers, T2 clock deviations", "§6 C02"),
- 'C03': ("component layer, fine granularity with post-store points: mpsc and spsc block queues at block-boundary offsets, 2 producers x consumer programs, brute-force FIFO linearizability + exactly-once + drop counters; exhaustive sequential sweeps vs VecDeque", "§6 C03"),
+ 'C01': ("runtime layer: 24 spawn/join programs (go!, Builder with custom stack and id, spawn_local; ret / yield / sleep / park / panic / cancel / nested / scoped), workers 1-2, run queues positioned at their 32/64-slot block boundaries, 10 ms polling variants; the whole family runs twice, on the default runtime (work_steal) and on a second build of the runtime without work_steal; second-generation coroutines on a pooled stack whose first occupant was cancelled / panicked / timed out, blocking on Mutex and Semphore", "§6 C01"),
+ 'C02': ("ThreadPark through Blocker (fine), coroutine::park / park_timeout sequences with unpark-after-return handshake, fresh Blocker parks with timeout / cancel / ignore_cancel, thread and coroutine unparkers, T2 clock deviations; fresh-Blocker timeouts that are not a whole number of milliseconds (never reported early)", "§6 C02"),
+ 'C03': ("component layer, fine granularity with post-store points: mpsc and spsc block queues at block-boundary offsets, 2 producers x consumer programs, brute-force FIFO linearizability + exactly-once + drop counters; exhaustive sequential sweeps vs VecDeque; lagging-consumer members (queue prefilled with 1-3 blocks, bulk_pop ending at a block boundary while the producer recycles blocks); len / is_empty right after the pop of the slot that closes a block", "§6 C03"),
  'C04': ("component layer, fine: spmc Local/Steal (owner push/pop vs 1-2 stealers' steal_into) and raw Queue pop/bulk_pop at block-boundary offsets; exactly-once, owner/batch order, newest-of-batch, drop counters; ABA member: stealer stalled across two blocks of owner push/pop under the recycling allocator", "§6 C04"),
- 'C05': ("Mutex with thread / coroutine mixes, try_lock, a cancelled waiter; occupancy counter and split read-modify-write inside the critical section, lock free and unpoisoned at the end; members with the lock held when the window opens so that the hand-off races with the cancellation", "§6 C05"),
- 'C06': ("mpsc / spsc / mpmc channels with thread and coroutine endpoints: recv / try_recv / recv_timeout programs, multiset + per-sender order + drop counters, every receiver finally sees Disconnected; members whose Senders stay alive until everything is received (only the send itself can wake the receiver)", "§6 C06"),
+ 'C05': ("Mutex with thread / coroutine mixes, try_lock, a cancelled waiter; occupancy counter and split read-modify-write inside the critical section, lock free and unpoisoned at the end; members with the lock held when the window opens so that the hand-off races with the cancellation; store-buffer members (x86-TSO on the shim atomics of sync/blocking.rs): the unlock meets the cancelled waiter between its release store and its second look at unparked", "§6 C05"),
+ 'C06': ("mpsc / spsc / mpmc channels with thread and coroutine endpoints: recv / try_recv / recv_timeout programs, multiset + per-sender order + drop counters, every receiver finally sees Disconnected; members whose Senders stay alive until everything is received (only the send itself can wake the receiver); sends that meet the expiry of a recv_timeout (also with the Sender kept alive); channel queues crossing their block boundary", "§6 C06"),
  'C07': ("last Sender dropped against receivers before / in / after registering (0-1 values queued, 1-2 mpmc receivers, cloned senders), Receiver dropped against senders; no hang, queued values first, values dropped once", "§6 C07"),
  'C08': ("timer-list component at fine granularity (TimerThread driven by harness threads: add / delete / expiry with equal and different intervals, adds coinciding with an expiry), sweep of every timed API x coroutine/thread context x duration alphabet {0, 1 ns, 999999 ns, 1 ms, 1 ms+1 ns, 1.5 ms, 2 ms} with nothing arriving, event-vs-timeout races with T2 clock deviations; never early, always returns, lateness <= 1 ms without clock deviations", "§6 C08"),
- 'C09': ("a target coroutine owning tracked values blocks in park / sleep / yield / Mutex / Semphore / Condvar / RwLock read+write / SyncFlag / mpsc / mpmc / join and then in a second cancellable call; the search places cancel(); a partner issues the awaited events, a bystander shares the primitive; cancel-only members where the cancel is the only wake-up; quiescent probes of the primitive's state", "§6 C09"),
- 'C10': ("Semphore wait / wait_timeout / try_wait / post and SyncFlag wait / fire with threads and coroutines, cancelled waiters; prefix bound on successful waits, conservation at quiescence, latch clauses", "§6 C10"),
- 'C11': ("Condvar wait / wait_while / wait_timeout vs notify_one / notify_all, forwarding of a notification by a timing-out or cancelled waiter, the notifier holding the mutex while the waiter's wait ends, cancel during the re-lock after a notification, Barrier generations and leaders, WaitGroup", "§6 C11"),
- 'C12': ("RwLock: exhaustive sequential operation sequences (read / write / try_* / guard drops / poison) against a reader-writer model plus concurrent thread / coroutine mixes in clean and poisoned state, cancelled waiters, quiescent probe of the reader/writer counts", "§6 C12"),
- 'C13': ("a coroutine panics (typed payload) before / after a yield, holding a Mutex or RwLock write guard, as scoped child or select arm; cancel unwind with guards; bystanders, coroutine and thread lockers plus a try-lock prober released when the panic starts, later spawns on the recycled stack, poison flag and release", "§6 C13"),
- 'C14': ("coroutine::scope / join! / cqueue::scope with thread and coroutine owners, owner panics, owner cancelled while waiting, the last-spawned child panics while its siblings run, join! inside a losing select! arm; children watch an owner-frame liveness flag", "§6 C14"),
- 'C15': ("coroutine_local! privacy across yields and migration, init-once and drop-once, thread fallback; fresh coroutine on the provably reused stack after a returned / panicked / cancelled (also with a destructor that yields during the unwind) / timed-out occupant", "§6 C15"),
- 'C16': ("cqueue arms with ready / yield / sleep / channel-receive / panicking top halves, one-shot and two-event arms, poll(None) and poll(1 ms), Selector::remove, thread and coroutine pollers, select! against channel and sleep; per-arm top/bottom counters, Finished / Timeout clauses, nothing runs after the scope", "§6 C16"),
- 'C17': ("real sockets, real kernel: UnixStream pairs (coroutine and thread endpoints through the proxy coroutine), payload / chunk / buffer alphabets, back-pressure over minimised socket buffers, two connections, loopback TCP accept / connect / EOF, Unix and UDP datagram boundaries; thread readers with spurious std::thread::park wake-ups as a deviation; byte-exact comparison, EOF position, no hang; use-after-free detector on every hooked access", "§6 C17"),
- 'C18': ("socket read timeouts {500 us, 1 ms, 1.5 ms} with the peer writing never / before / after the deadline, two operations on one socket (stale timer; the read starting in the instant the data arrives so that subscribe takes its fast path), cancel of a coroutine blocked in read / accept / recv_from with a bystander connection; exact timeout clauses, fd closed after cancel", "§6 C18"),
+ 'C09': ("a target coroutine owning tracked values blocks in park / sleep / yield / Mutex / Semphore / Condvar / RwLock read+write / SyncFlag / mpsc / mpmc / join and then in a second cancellable call; the search places cancel(); a partner issues the awaited events, a bystander shares the primitive; cancel-only members where the cancel is the only wake-up; quiescent probes of the primitive's state; timed variants (park_timeout, Semphore / Condvar wait_timeout, mpsc recv_timeout), spsc receive, a Barrier party; destructors on the cancelled stack that block on a Mutex / Semphore / SyncFlag during the unwind", "§6 C09"),
+ 'C10': ("Semphore wait / wait_timeout / try_wait / post and SyncFlag wait / fire with threads and coroutines, cancelled waiters; prefix bound on successful waits, conservation at quiescence, latch clauses; store-buffer members (post meets a waiter that gives up); fire inside the window between is_fired and the queue push", "§6 C10"),
+ 'C11': ("Condvar wait / wait_while / wait_timeout vs notify_one / notify_all, forwarding of a notification by a timing-out or cancelled waiter, the notifier holding the mutex while the waiter's wait ends, cancel during the re-lock after a notification, Barrier generations and leaders, WaitGroup; a Barrier party cancelled as the leader arrives (two generations); cancel and unlock back to back while the waiter sits in the re-lock; store-buffer member for the forwarding handshake", "§6 C11"),
+ 'C12': ("RwLock: exhaustive sequential operation sequences (read / write / try_* / guard drops / poison) against a reader-writer model plus concurrent thread / coroutine mixes in clean and poisoned state, cancelled waiters, quiescent probe of the reader/writer counts; store-buffer members for the writer / first-reader hand-off", "§6 C12"),
+ 'C13': ("a coroutine panics (typed payload) before / after a yield, holding a Mutex or RwLock write guard, as scoped child or select arm; cancel unwind with guards; bystanders, coroutine and thread lockers plus a try-lock prober released when the panic starts, later spawns on the recycled stack, poison flag and release; fire-and-forget (detached) coroutines that panic followed by later spawns that return / are cancelled / panic / select!; a cqueue with a removed arm and a panicking arm", "§6 C13"),
+ 'C14': ("coroutine::scope / join! / cqueue::scope with thread and coroutine owners, owner panics, owner cancelled while waiting, the last-spawned child panics while its siblings run, join! inside a losing select! arm; children watch an owner-frame liveness flag; nested scopes (a scoped child opens its own scope)", "§6 C14"),
+ 'C15': ("coroutine_local! privacy across yields and migration, init-once and drop-once, thread fallback; fresh coroutine on the provably reused stack after a returned / panicked / cancelled (also with a destructor that yields during the unwind) / timed-out occupant; previous occupant detached; the fresh coroutine itself ends by cancel or by its own panic (join must deliver exactly its own result); a timed park whose expiry meets an unpark", "§6 C15"),
+ 'C16': ("cqueue arms with ready / yield / sleep / channel-receive / panicking top halves, one-shot and two-event arms, poll(None) and poll(1 ms), Selector::remove, thread and coroutine pollers, select! against channel and sleep; per-arm top/bottom counters, Finished / Timeout clauses, nothing runs after the scope; arms whose top half runs without cancellation points (bottom half only with a consumed event: bottom_without_event), a removal that meets the arm's send, a removed arm plus a panicking arm, cqueue lifetime labels (use after the scope was left)", "§6 C16"),
+ 'C17': ("real sockets, real kernel: UnixStream pairs (coroutine and thread endpoints through the proxy coroutine), payload / chunk / buffer alphabets, back-pressure over minimised socket buffers, two connections, loopback TCP accept / connect / EOF, Unix and UDP datagram boundaries; thread readers with spurious std::thread::park wake-ups as a deviation; byte-exact comparison, EOF position, no hang; use-after-free detector on every hooked access; descriptor reuse: a socket dropped / a TCP connect refused while another thread creates a connection (the kernel hands out the closed number at once); writer and reader sockets on swapped selectors, thread writers under back-pressure; two handles on one stream (try_clone)", "§6 C17"),
+ 'C18': ("socket read timeouts {500 us, 1 ms, 1.5 ms} with the peer writing never / before / after the deadline, two operations on one socket (stale timer; the read starting in the instant the data arrives so that subscribe takes its fast path), cancel of a coroutine blocked in read / accept / recv_from with a bystander connection; exact timeout clauses, fd closed after cancel; timed reads on TcpStream (own read path) with a std peer", "§6 C18"),
  'C19': ("component layer, fine: mpsc_list_v1 push vs pop / pop_if / peek / remove (head, middle, last, consumed entry), queue drop with entries left, FIFO-with-removal linearizability incl. the is_head report; exhaustive sequential sweep; mpsc_list", "§6 C19"),
 }
 checks = []
